@@ -114,7 +114,8 @@ func (d *AV1Depacketizer) Unmarshal(payload []byte) (buff []byte, err error) {
 		offset += lengthField
 
 		if isLast && obuY {
-			d.buffer = obuBuffer
+			// Keep our own copy: obuBuffer may still alias the caller's packet.
+			d.buffer = append([]byte{}, obuBuffer...)
 
 			break
 		}
